@@ -15,6 +15,20 @@ static struct msszdd_decompressor *szddd; static struct msszddd_header *szdds[NV
 static struct mskwaj_decompressor *kwajd; static struct mskwajd_header *kwajs[NV];
 static struct msoab_decompressor *oabd;
 static int opno; static int scn_no;
+/* several decompressor instances of each kind can be alive at once: "inst N" switches between N = 0..3 (C19: instances are independent) */
+#define NI 4
+static struct { struct mscab_decompressor *cabd; struct mscabd_cabinet *cabs[NV]; int absorbed[NV];
+                struct mschm_decompressor *chmd; struct mschmd_header *chms[NV];
+                struct msszdd_decompressor *szddd; struct msszddd_header *szdds[NV];
+                struct mskwaj_decompressor *kwajd; struct mskwajd_header *kwajs[NV];
+                struct msoab_decompressor *oabd; } saved[NI];
+static int cur_inst = 0;
+static void save_inst(int k) { saved[k].cabd = cabd; memcpy(saved[k].cabs, cabs, sizeof cabs); memcpy(saved[k].absorbed, absorbed, sizeof absorbed);
+  saved[k].chmd = chmd; memcpy(saved[k].chms, chms, sizeof chms); saved[k].szddd = szddd; memcpy(saved[k].szdds, szdds, sizeof szdds);
+  saved[k].kwajd = kwajd; memcpy(saved[k].kwajs, kwajs, sizeof kwajs); saved[k].oabd = oabd; }
+static void load_inst(int k) { cabd = saved[k].cabd; memcpy(cabs, saved[k].cabs, sizeof cabs); memcpy(absorbed, saved[k].absorbed, sizeof absorbed);
+  chmd = saved[k].chmd; memcpy(chms, saved[k].chms, sizeof chms); szddd = saved[k].szddd; memcpy(szdds, saved[k].szdds, sizeof szdds);
+  kwajd = saved[k].kwajd; memcpy(kwajs, saved[k].kwajs, sizeof kwajs); oabd = saved[k].oabd; }
 static int hexout = 1;          /* print output bytes in full (1) or as length + fnv hash (0) */
 
 static void hexs(const unsigned char *p, size_t n) { size_t i; for (i = 0; i < n; i++) printf("%02x", p[i]); }
@@ -242,13 +256,17 @@ int scn_main(int argc, char **argv) {
     if (n == 0 || t[0][0] == '#') continue;
     if (!strcmp(t[0], "end")) {
       /* protocol: whatever the scenario left open is released by the client before the ledger is read */
-      int i;
+      int i, inst_k;
+      save_inst(cur_inst);
+      for (inst_k = 0; inst_k < NI; inst_k++) { load_inst(inst_k);
       for (i = 0; i < NV; i++) { if (cabd && cabs[i] && !absorbed[i]) cabd->close(cabd, cabs[i]); if (chmd && chms[i]) chmd->close(chmd, chms[i]);
                                  if (szddd && szdds[i]) szddd->close(szddd, szdds[i]); if (kwajd && kwajs[i]) kwajd->close(kwajd, kwajs[i]); }
       if (cabd) mspack_destroy_cab_decompressor(cabd); if (chmd) mspack_destroy_chm_decompressor(chmd);
       if (szddd) mspack_destroy_szdd_decompressor(szddd); if (kwajd) mspack_destroy_kwaj_decompressor(kwajd); if (oabd) mspack_destroy_oab_decompressor(oabd);
       cabd = NULL; chmd = NULL; szddd = NULL; kwajd = NULL; oabd = NULL;
       memset(cabs, 0, sizeof cabs); memset(absorbed, 0, sizeof absorbed); memset(chms, 0, sizeof chms); memset(szdds, 0, sizeof szdds); memset(kwajs, 0, sizeof kwajs);
+      }
+      memset(saved, 0, sizeof saved); cur_inst = 0;
       sm_report(); printf("END %d\n", scn_no); fflush(stdout);
       sm_reset(); scn_no++; opno = 0; printf("BEGIN %d\n", scn_no); alarm(timeout);
       continue;
@@ -258,6 +276,7 @@ int scn_main(int argc, char **argv) {
       free(f->data); f->len = f->cap = 0; f->data = NULL;
       if (strcmp(t[2], "-")) { f->len = unhex(t[2], &f->data); f->cap = f->len + 1; } else { f->data = malloc(1); f->cap = 1; }
     }
+    else if (!strcmp(t[0], "inst") && n >= 2) { int k = atoi(t[1]) & (NI - 1); save_inst(cur_inst); load_inst(k); cur_inst = k; printf("inst %d\n", k); }
     else if (!strcmp(t[0], "fill") && n >= 2) sm_fill = atoi(t[1]) & 255;
     else if (!strcmp(t[0], "trace") && n >= 2) sm_trace = atoi(t[1]);
     else if (!strcmp(t[0], "hexout") && n >= 2) hexout = atoi(t[1]);
